@@ -3,6 +3,7 @@ From Coq Require Import ExtrOcamlBasic.
 From Coq Require Extraction.
 From Coq Require Import NArith.
 From Coq Require Import Strings.Byte.
-From Muscle Require Import Common.LE Gen.Consts Gw.Tunnel Gw.MiniTunnel.
+From Muscle Require Import Common.LE Gen.Consts Gw.Tunnel Gw.MiniTunnel Gw.Packetized.
 Extraction "tunnel_model.ml" byte_of_N Byte.to_N clamp_mtu s_init sstep recv_packet
-                             mclamp_mtu m_init mstep mrecv_packet.
+                             mclamp_mtu m_init mstep mrecv_packet
+                             pw_init pw_flush pwrite pr_init pread.
